@@ -42,12 +42,12 @@ Fields == <<
 Choice == {c \in (1..Len(Fields)) \X (1..20) : c[2] <= Len(Fields[c[1]].vals)}
 Label(c) == [f |-> Fields[c[1]].f, v |-> Fields[c[1]].vals[c[2]]]
 
-\* decode-time gates named by the anchors: these values MUST make Unmarshal / verification fail
+\* decode-time gates the PROPERTIES name (C07: unsupported schema versions; C01: key / signature / proof sizes; a well-formed
+\* envelope): these values MUST make Unmarshal / verification fail.  Other malformed values (empty or nested sets, empty
+\* oneofs, ...) only have to be handled without crashing -- whether they are refused is not part of any listed property.
 Gated(l) == \/ l.f = "block.version"
             \/ l.f = "envelope.key" \/ l.f = "envelope.sig"
             \/ l.f = "proof" /\ l.v \in {"absent", "secret-len0", "secret-len3", "secret-len31", "secret-len33", "secret-len64", "final-len0", "final-len63"}
-            \/ l.f = "fact.term.kind" /\ l.v \in {"empty-oneof", "set-empty", "set-nested", "set-mixed", "set-variable"}
-            \/ l.f = "check.expr" /\ l.v \in {"op-empty-oneof"}
             \/ l.f = "envelope.shape"
 
 Panel == << "unmarshal", "string", "verify", "verify-other-key", "authorize-allow", "authorize-rules", "authorize-queries", "query",
